@@ -151,7 +151,7 @@ var pairOuter = []string{
 	"%s", "(%s)", "%s.a", "%s.k", "%s.b.c", "%s[0]", "%s[-1]", "%s[1:]", "%s[::-1]", "%s[:1]", "%s[*]", "%s[*].a", "%s[]", "%s[][]", "%s[?a]", "%s[?@]", "%s[?@ == `null`]", "%s[?a == `1`]", "%s[?type(@) == 'number']",
 	"%s | @", "%s | [0]", "%s | type(@)", "%s | length(@)", "%s | [*].a", "%s | [*].type(@)", "%s | [?@]", "@ | %s", "a | %s", "missing | %s", "arr | %s", "arr[0] | %s", "mix | %s",
 	"%s || a", "%s || 'd'", "%s && a", "a || %s", "missing || %s", "a && %s", "missing && %s", "!%s", "!(%s)", "%s == a", "%s == `null`", "%s != `[]`", "a == %s", "`1` == %s", "%s < `2`", "%s >= n", "n < %s", "n > (%s)",
-	"[%s]", "[%s, a]", "[a, %s, %s]", "{x: %s}", "{x: a, y: %s}", "arr[*].[%s]", "arr[*].{v: %s}", "arr[?%s]", "mix[?%s]", "arr[?a == (%s)]", "arr[*].(%s)", "mix[*].(%s)", "nest[].(%s)", "one.*.(%s)", "arr[1:].(%s)",
+	"[%s]", "[%s, a]", "[a, %s, %s]", "{x: %s}", "{x: a, y: %s}", "arr[*].[%s]", "arr[*].{v: %s}", "arr[?%s]", "mix[?%s]", "arr[?a == (%s)]", "mix[*].[%s]", "nest[].[%s]", "one.*.[%s]", "arr[1:].[%s]", "mix[*].{v: %s}", "mix[?a == (%s)]", "mix[?(%s) == `null`]",
 	"missing.%s", "nul.%s", "a.%s", "arr[0].%s", "arr[5].%s", "obj.%s", "mix[0].%s", "[%s][0]", "[%s][*]", "{x: %s}.x", "(%s)[0]", "(%s).a",
 	"abs(%s)", "avg(%s)", "ceil(%s)", "contains(%s, a)", "contains(arr, %s)", "contains(s, %s)", "ends_with(%s, 'c')", "floor(%s)", "join(',', %s)", "join(%s, strs)", "keys(%s)", "length(%s)", "map(&%s, arr)",
 	"map(&%s, mix)", "map(&a, %s)", "map(&type(@), %s)", "max(%s)", "max_by(%s, &a)", "max_by(arr, &%s)", "merge(%s)", "merge(obj, %s)", "min(%s)", "min_by(%s, &a)", "not_null(%s)", "not_null(%s, a)", "not_null(missing, %s)",
